@@ -429,14 +429,15 @@ Section Wire.
     else Ok (IInst (PVal (VList []))).          (* _doc_to_object(cls, None) == [] *)
 
   (** ServerBase.get_out_object after process_request *)
-  Definition srv_ignored (U : universe) (d : descriptor) (o : oobj) : out oobj :=
-    do a <- first_match U d o srv_ign_chain;
+  Definition srv_ignored_gen (ch : list (cond * ign_act)) (U : universe) (d : descriptor) (o : oobj) : out oobj :=
+    do a <- first_match U d o ch;
     match a with
     | None => Ok o
     | Some IgnOneNone => Ok (OSeq [PVal VNone])
     | Some IgnEmptyTuple => Ok (OSeq [])
     | Some IgnNonePerValue => do n <- out_len U d; Ok (OSeq (repeat (PVal VNone) (Z.to_nat n)))
     end.
+  Definition srv_ignored := srv_ignored_gen srv_ign_chain.
 
   (** a returned object as a value of the declared return type *)
   Definition wv (x : pyv) : out val :=
